@@ -65,11 +65,30 @@ pub struct Ov3 {
     pub t: Option<(String, u8, bool)>,
 }
 
+/// items of one list (`g`) contain elements named like the OTHER lists of the parent
+#[derive(Serialize, Deserialize, PartialEq, Debug, Clone)]
+pub struct OvGroup {
+    #[serde(default)]
+    pub a: Vec<u8>,
+    #[serde(default)]
+    pub c: Vec<String>,
+}
+#[derive(Serialize, Deserialize, PartialEq, Debug, Clone)]
+pub struct Ov4 {
+    #[serde(default)]
+    pub a: Vec<u8>,
+    #[serde(default)]
+    pub c: Vec<String>,
+    #[serde(default)]
+    pub g: Vec<OvGroup>,
+}
+
 #[derive(Serialize, Deserialize, PartialEq, Debug, Clone)]
 pub enum OvVal {
     Ov(Ov),
     Ov2(Ov2),
     Ov3(Ov3),
+    Ov4(Ov4),
 }
 
 #[derive(Clone, Debug, Serialize, Deserialize, PartialEq)]
@@ -229,6 +248,7 @@ fn build(c: &Case) -> Option<Built> {
         OvVal::Ov(v) => ser(v, &plain).ok()?,
         OvVal::Ov2(v) => ser(v, &plain).ok()?,
         OvVal::Ov3(v) => ser(v, &plain).ok()?,
+        OvVal::Ov4(v) => ser(v, &plain).ok()?,
     };
     let (open, units, close) = split_children(&doc)?;
     let mut nested_choices = c.nested_order.iter().copied();
@@ -281,6 +301,7 @@ fn de_with_limit(v: &OvVal, xml: &str, limit: Option<usize>, via_reader: bool, p
             OvVal::Ov(_) => Ov::deserialize(&mut de).map(OvVal::Ov),
             OvVal::Ov2(_) => Ov2::deserialize(&mut de).map(OvVal::Ov2),
             OvVal::Ov3(_) => Ov3::deserialize(&mut de).map(OvVal::Ov3),
+            OvVal::Ov4(_) => Ov4::deserialize(&mut de).map(OvVal::Ov4),
         };
     }
     let mut de = quick_xml::de::Deserializer::from_str(xml);
@@ -292,6 +313,7 @@ fn de_with_limit(v: &OvVal, xml: &str, limit: Option<usize>, via_reader: bool, p
         OvVal::Ov(_) => Ov::deserialize(&mut de).map(OvVal::Ov),
         OvVal::Ov2(_) => Ov2::deserialize(&mut de).map(OvVal::Ov2),
         OvVal::Ov3(_) => Ov3::deserialize(&mut de).map(OvVal::Ov3),
+        OvVal::Ov4(_) => Ov4::deserialize(&mut de).map(OvVal::Ov4),
     }
 }
 
@@ -357,6 +379,12 @@ pub fn check(c: &Case) -> Verdict {
     if !c.presets.is_empty() {
         v.classes.push("limit-set-several-times");
     }
+    if b.need > 1024 {
+        v.classes.push(">1024-events-held");
+    }
+    if matches!(c.value, OvVal::Ov4(_)) {
+        v.classes.push("list-items-containing-names-of-sibling-lists");
+    }
     if matches!(c.value, OvVal::Ov3(_)) {
         v.classes.push("fixed-size-sequences-among-the-lists");
     }
@@ -373,6 +401,8 @@ fn value_strategy(max: usize) -> impl Strategy<Value = OvVal> {
         (prop::collection::vec(any::<u16>(), 0..=max.min(4)), prop::collection::vec((any_string(), elem_string()).prop_map(|(k, text)| OvLeaf { k, text }), 0..=max.min(4)), any::<bool>()).prop_map(|(x, y, flag)| OvVal::Ov2(Ov2 { x, y, flag })),
         (any::<(u16, u16)>(), prop::collection::vec(any::<u16>(), 0..=max.min(3)), prop::collection::vec(elem_string().prop_filter("non-empty", |s| !s.is_empty()), 0..=max.min(3)), prop::option::weighted(0.4, any::<[u8; 2]>()), prop::option::weighted(0.3, (elem_string().prop_filter("non-empty", |s| !s.is_empty()), any::<u8>(), any::<bool>())))
             .prop_map(|(p, b, c, q, t)| OvVal::Ov3(Ov3 { p, b, c, q, t })),
+        (prop::collection::vec(any::<u8>(), 0..=max.min(3)), prop::collection::vec(elem_string().prop_filter("non-empty", |s| !s.is_empty()), 0..=max.min(2)), prop::collection::vec((prop::collection::vec(any::<u8>(), 0..3), prop::collection::vec(elem_string().prop_filter("non-empty", |s| !s.is_empty()), 0..2)).prop_map(|(a, c)| OvGroup { a, c }), 0..=max.min(3)))
+            .prop_map(|(a, c, g)| OvVal::Ov4(Ov4 { a, c, g })),
     ]
 }
 
@@ -417,6 +447,7 @@ fn run(ctx: &Ctx) {
                 OvVal::Ov(x) => ser(x, &SerOpts::plain()),
                 OvVal::Ov2(x) => ser(x, &SerOpts::plain()),
                 OvVal::Ov3(x) => ser(x, &SerOpts::plain()),
+                OvVal::Ov4(x) => ser(x, &SerOpts::plain()),
             };
             doc.ok().and_then(|d| split_children(&d)).map_or(false, |(_, u, _)| u.len() >= 3 && u.len() <= 7)
         })
@@ -432,6 +463,7 @@ fn run(ctx: &Ctx) {
                 OvVal::Ov(x) => ser(x, &SerOpts::plain()),
                 OvVal::Ov2(x) => ser(x, &SerOpts::plain()),
                 OvVal::Ov3(x) => ser(x, &SerOpts::plain()),
+                OvVal::Ov4(x) => ser(x, &SerOpts::plain()),
             }
             .unwrap();
             let (_, units, _) = split_children(&doc).unwrap();
@@ -449,6 +481,21 @@ fn run(ctx: &Ctx) {
                 .prop_map(|(n, a, b, c, s, order, nested_order, limits, via_reader)| Case { value: OvVal::Ov(Ov { n, a, b, c, s }), order, nested_order, limits: if limits.is_empty() { vec![65535] } else { limits }, via_reader, presets: vec![] }),
         )
     };
+    // more than 1024 skipped events held at once, no limit requested (and limits far above)
+    ctx.run_indexed(
+        "more-than-1024-events-held",
+        ctx.tier.pick(24, 96),
+        |i| {
+            let n = [350usize, 400, 700, 1500][(i % 4) as usize];
+            let b: Vec<String> = (0..n).map(|k| format!("x{}", (k as u64 * 7 + i) % 10)).collect();
+            let a = vec![OvItem { id: 1, a: vec![1], z: vec![] }, OvItem { id: 2, a: vec![], z: vec!["z".into()] }];
+            // order: first item of `a`, all of `b`, then the second item of `a` (choice stream: group picks)
+            let mut order = vec![0u16; 1];
+            order.extend(std::iter::repeat(40000u16).take(n));
+            Some(Case { value: OvVal::Ov(Ov { n: 0, a, b, c: vec![(i % 250) as u8], s: "s".into() }), order, nested_order: vec![], limits: vec![65535, 65000], via_reader: i % 3 == 1, presets: vec![] })
+        },
+        check,
+    );
     ctx.run_proptest_with("long-lists-random-interleavings", ctx.tier.pick(40_000, 400_000), long, check);
 }
 
